@@ -533,6 +533,33 @@ theorem channel_layouts_agree (K : Kernels ℂ) (n : Nat) (v : Vec ℂ n) (w : V
   cases ho
   rfl
 
+/-! ## argument forms and read-back of the configuration (R8, R11) -/
+
+/-- **Omitted / `None` noise variance of `_calc_receive_filter` is `0.0`** (the default
+    argument, the explicit `None` and the explicit `0.0` select the same zero-forcing
+    filter). -/
+theorem filter_default_noise_var (K : Kernels ℂ) (o : Obj ℂ) :
+    step K o (.filters none) = step K o (.filters (some 0)) := rfl
+
+/-- **What was configured is what is read back, after any history**: `_channel` is the
+    last accepted channel (as a 2-D matrix, `None` if there never was one), `_noise_var`
+    the last accepted noise variance, `getNumberOfLayers()` the `Nt` of that channel
+    (`1` for MRT / Alamouti) — queries in between (`encode`, `decode`, `calc_*`,
+    `getNumberOfLayers`, reading attributes) leave no trace (`observation_keeps_state`). -/
+theorem configuration_read_back (K : Kernels ℂ) (o : Obj ℂ) (ops : List (Op ℂ)) :
+    (step K (run K o ops) .channel).2 =
+      (match cfgChan o.scheme o.chan ops with
+       | some c => .mat c.nr c.nt c.H
+       | none => .done) ∧
+    (o.scheme.blastFamily = true →
+      (step K (run K o ops) .noiseVar).2 = .vec 1 (fun _ => cfgNv o.scheme o.nv ops)) := by
+  rw [Pf.run_state K ops o]
+  refine ⟨?_, ?_⟩
+  · simp only [step]
+    cases cfgChan o.scheme o.chan ops <;> rfl
+  · intro hb
+    simp [step, hb]
+
 /-! ## non-vacuity: concrete values satisfying the hypotheses -/
 
 /-- the `pinv` contract and full column rank hold for the 2×1 channel `[1, j]ᵀ` with
